@@ -140,8 +140,10 @@ def run(ctx):
         rnd.shuffle(ps)
         # differences in the containment tree alone are few among hundreds
         # of attribute edits: try them first
-        ps.sort(key=lambda lt: not lt[0].startswith(
-            ("tree:", "expr.symbols-exchanged", "exchange:")))
+        # (and a quarter of the equal-hash integer twins with them)
+        ps.sort(key=lambda lt: not (lt[0].startswith(
+            ("tree:", "expr.symbols-exchanged", "exchange:")) or (
+                lt[0].endswith(":hash-twin") and rnd.random() < 0.25)))
         done = 0
         for label, thunk in ps:
             if done >= ctx.params.get("perturbations_per_case", 40):
@@ -165,6 +167,8 @@ def run(ctx):
             ctx.seen("perturbation_labels", label)
             if label.startswith(("tree:", "exchange:", "expr.symbols-ex")):
                 ctx.count("perturbation:" + label)
+            if label.endswith(":hash-twin"):
+                ctx.count("perturbation:equal-hash-integer")
             ctx.seen("nontrivial", (na_spec, label, n2))
             if expected:
                 ctx.count("expected_true_despite_change")
